@@ -208,6 +208,19 @@ func layoutUnits(sameNamedTypes bool) []scen.Unit {
 	return []scen.Unit{{Controllers: []scen.Controller{a, b, c}, Decls: decls, Imports: map[string][]string{"p": imports, "q": imports}}}
 }
 
+// aliasedEnum gives the Kind enum two further constants that repeat existing values (a default alias and a synonym).
+func aliasedEnum(us []scen.Unit) []scen.Unit {
+	us[0].Decls["m1"] = strings.Replace(us[0].Decls["m1"], "\tKindB Kind = \"b\"\n", "\tKindB Kind = \"b\"\n\tKindC Kind = \"c\"\n\tKindDefault Kind = KindA\n\tKindAlso Kind = \"b\"\n", 1)
+	return us
+}
+
+// withSwitches turns on response validation and both experimental enum switches (their template sections list enum values).
+func withSwitches(p proj) proj {
+	scen.Set(p.P.Config, "routesConfig.validateResponsePayload", true)
+	scen.Set(p.P.Config, "experimentalConfig", map[string]any{"validateTopLevelOnlyEnum": true, "generateEnumValidator": true})
+	return p
+}
+
 func Main(tier, replay string) {
 	run := core.NewRun("C13", tier)
 	scratch := scen.MkScratch("c13")
@@ -224,6 +237,7 @@ func Main(tier, replay string) {
 		mkProject("three controllers, two packages, types from two other packages", layoutUnits(false), "gin", nil),
 		mkProject("same, globs listed in reverse order", layoutUnits(false), "gin", reverse),
 		mkProject("same-named struct Item in two packages", layoutUnits(true), "gin", nil),
+		withSwitches(mkProject("enum with aliased constants, all generator switches on", aliasedEnum(layoutUnits(false)), "gin", nil)),
 	}
 	bound := 1
 	if tier == "thorough" {
